@@ -12,6 +12,7 @@ EXPECTED_FACTS = {
         "sOffset.RunId != id1",
         "isFullSync || clearLocal",
         "isFullSync",
+        "isFullSync",
         "outSp.Offset <= 0"
     ],
     "c06_psync_args": [
@@ -30,11 +31,14 @@ EXPECTED_FACTS = {
         "syncMeta: ri.channel.DelRunId(ri.channel.RunId())",
         "syncMeta: ri.channel.RunId()",
         "syncMeta: ri.channel.SetRunId(sOffset.RunId)",
+        "syncMeta: ri.output.ResetStartPoint(ctx, inputIds)",
         "syncMeta: ri.output.SetRunId(ctx, sOffset.RunId)",
         "syncData: ri.channel.NewRdbWriter(redisCli.Client().BufioReader(), offset, rdbSize)",
         "syncData: ri.channel.NewAofWritter(redisCli.Client().BufioReader(), offset)",
         "syncData: ri.channel.NewAofWritter(redisCli.Client().BufioReader(), offset)",
-        "readChannel: ri.channel.NewReader(readerOffset.ToOffset())"
+        "readChannel: ri.channel.NewReader(readerOffset.ToOffset())",
+        "sendOutput: ri.output.ResetStartPoint(ctx, append([]string{reader.RunId()}, ri.RunIds()...))",
+        "sendOutput: ri.output.Send(ctx, reader)"
     ],
     "c06_sendpsync_offset": [
         "if offset >= 0",
